@@ -393,6 +393,7 @@ fn parse_cmd(t: &[&str]) -> Cmd {
         "replaceeol" => Cmd::Replace(Movement::EndOfLine, Some(parse_str(t[1]))),
         "replacewl" => Cmd::Replace(Movement::WholeLine, Some(parse_str(t[1]))),
         "yank" => Cmd::Yank(1, rustyline::Anchor::Before),
+        "yank0" => Cmd::Yank(0, rustyline::Anchor::Before),
         other => panic!("cmd {other}"),
     }
 }
